@@ -49,6 +49,12 @@ def generate(rng, tier):
         add(("E_BConfig", rng.randint(0, 7), rng.randint(0, 1), rng.randint(0, 1))); add(("E_BSet", rng.randint(0, 7), rng.randint(0, 1)))
         add(("E_PenPos", rng.random() < 0.5, _i(rng))); add(("E_PenRate", rng.random() < 0.5, _i(rng))); add(("E_Servo", _i(rng), rng.choice([None, 0, 1])))
         add(("E_Var", rng.randint(0, 255), rng.randint(0, 31))); add(("E_ClearSteps",)); add(("E_ClearAcc",))
+    # motors_enable against every motor state the board can report, for the requests that read it (motor 2 only) and a few that do not
+    qs = [0, 1, 2, 4, 8, 16]
+    for q1 in qs:
+        for q2 in qs:
+            for (r1, r2) in [(0, 1), (0, 3), (0, 5), (-1, 2), (0, 4), (2, 0), (3, 3)][:: (1 if tier != "quick" else 2)] + [(0, rng.randint(1, 5))]:
+                cases.append({"h": ("E_MotorsOnQ", r1, r2, q1, q2), "family": "E_MotorsOnQ"})
     # class layer: the text a helper emits must not depend on what the object did before (state carried between calls):
     # 1-3 earlier helper calls on the same object, then the judged call; every pair of single-motor requests systematically
     def e_helper():
@@ -74,8 +80,9 @@ def generate(rng, tier):
 
 class AckPort:
     """acknowledges everything: legacy commands get OK, EBB3 requests get their own name back"""
-    def __init__(self, legacy, delay=0, blank=False, version=None):
+    def __init__(self, legacy, delay=0, blank=False, version=None, qe="0,0"):
         self.legacy, self.writes, self.queue = legacy, [], []
+        self.qe = qe                                 # the motor state the board reports to QE
         self.version = version                       # what a legacy board answers to V
         self.delay, self.blank = delay, blank        # reads that time out (b'') / a blank line before each acknowledgement
     def write(self, data):
@@ -85,7 +92,7 @@ class AckPort:
         self.queue += [b""] * self.delay + ([b"\r\n"] if self.blank else [])
         if self.legacy and nm.upper() == "V" and self.version: self.queue.append(("EBBv13_and_above EB Firmware Version %s\r\n" % self.version).encode())
         elif self.legacy: self.queue.append(b"OK\r\n")
-        else: self.queue.append((nm + (",0,0" if nm == "QE" else "")).encode() + b"\r\n")
+        else: self.queue.append((nm + ("," + self.qe if nm == "QE" else "")).encode() + b"\r\n")
         return len(data)
     def readline(self):
         return self.queue.pop(0) if self.queue else b""
@@ -95,7 +102,7 @@ class AckPort:
 def run_impl(c):
     h = c["h"]; k, a = h[0], h[1:]
     legacy = k.startswith("L_")
-    port = AckPort(legacy, c.get("delay", 0), c.get("blank", False), "%d.%d.%d" % tuple(a[:3]) if k == "L_ServoV" else None)
+    port = AckPort(legacy, c.get("delay", 0), c.get("blank", False), "%d.%d.%d" % tuple(a[:3]) if k == "L_ServoV" else None, "%d,%d" % (a[2], a[3]) if k == "E_MotorsOnQ" else "0,0")
     if legacy:
         M = ebb_motion
         if k == "L_XY": M.doXYMove(port, a[0], a[1], a[2], False)
@@ -141,7 +148,7 @@ def _e_call(o, k, a):
         elif k == "E_Abs": o.abs_move(a[0], a[1], a[2])
         elif k == "E_Pause": o.timed_pause(a[0])
         elif k == "E_MotorsOff": o.motors_disable()
-        elif k == "E_MotorsOn": o.motors_enable(a[0], a[1])
+        elif k in ("E_MotorsOn", "E_MotorsOnQ"): o.motors_enable(a[0], a[1])
         elif k == "E_Pen": (o.pen_raise if a[0] else o.pen_lower)(a[1], a[2])
         elif k == "E_BConfig": o.dio_b_config(a[0], a[1], a[2])
         elif k == "E_BSet": o.dio_b_set(a[0], a[1])
